@@ -20,6 +20,8 @@ import MosnVerif.Model.CheckedWire
 import MosnVerif.Lemmas.H2Alloc
 import MosnVerif.Lemmas.HpackNoPanic
 import MosnVerif.Lemmas.StreamAlloc
+import MosnVerif.Lemmas.CheckedMatchEq
+import MosnVerif.Lemmas.HpackRead
 /-!
 # C08 — malformed input is contained (property theorems only)
 
@@ -817,6 +819,18 @@ theorem xfactory_result_faithful (r : MR) : errToMR (MosnVerif.Gen.C08Matchers.x
     MosnVerif.Gen.C08Matchers.xfactory_noMatcher = Err.failed := by
   cases r <;> decide
 
+/-- **gen_matchers_eq_model** (one matcher semantics for C07 and C08): for every registered matcher and EVERY byte string
+the regenerated checked-access program answers exactly what the hand-written matcher model of C07 (Model/Match.lean:
+the functions `match_monotone`, `scope_monotone`, `select_*` are about) answers, and never `oob`; the two tables have the
+same names (`genMatcherOf_eq`, `genScopeOf_eq` in Lemmas/CheckedMatchEq: C07's `matcherOf` / `scopeOf` ARE the regenerated
+functions). -/
+theorem gen_matchers_eq_model (name : String) (g : MosnVerif.Model.CheckedGo.Bytes → Chk MR)
+    (m : List UInt8 → MosnVerif.Model.Match.MR) (hg : matcherOf name = some g)
+    (hm : MosnVerif.Model.Match.matcherOf name = some m) (b : List UInt8) :
+    g b = .ok (MosnVerif.Lemmas.CheckedMatchEq.toMR (m b)) ∧
+    MosnVerif.Lemmas.CheckedMatchEq.genMatcherOf name = MosnVerif.Model.Match.matcherOf name :=
+  ⟨MosnVerif.Lemmas.CheckedMatchEq.gen_eq name g m hg hm b, MosnVerif.Lemmas.CheckedMatchEq.genMatcherOf_eq name⟩
+
 -- non-vacuity: all seven names are matchers; boundary answers of the regenerated programs
 example : matcherNames.all (fun n => (matcherOf n).isSome) = true := by decide
 example : (matcherNames.map (fun n => ((matcherOf n).map (fun m => matchTok (m []))).getD "-")) =
@@ -1019,6 +1033,27 @@ example : (collect (fun recv ann => if ann > recv then ann else recv) 268435456 
   decide +kernel
 example : parseInt64 "99999999999999999999" = 9223372036854775807 ∧ parseInt64 "abc" = 0 ∧ parseInt64 "-5" = -5 := by decide
 end streamalloc
+
+/-- **hpack_varint_gen_no_overread** (HPACK byte reads, regenerated): `readVarInt` of hpack.go translated statement by
+statement (Gen/C08HpackRead: `p[0]`, `p[1:]` checked; the continuation loop with its state; `panic("bad n")`), for every
+prefix size the decoder uses (1..8) and EVERY byte string: no access outside the bytes given, no panic, the loop ends;
+success consumed ≥ 1 byte and never more than were given; an error (need-more, overflow) consumed nothing.
+This is `hpack_varint_no_overread` re-proved over the regenerated program instead of the hand-written mirror.
+NOT yet regenerated (still the mirror of Model/HpackInt / HpackEmit): `Decoder.readString`, `parseHeaderFieldRepr` and the
+three `parseField…` functions; Huffman decoding of the string body stays a named oracle. -/
+theorem hpack_varint_gen_no_overread (n : Int) (p : MosnVerif.Model.CheckedGo.Bytes) (h1 : 1 ≤ n) (h8 : n ≤ 8) :
+    MosnVerif.Gen.C08HpackRead.hpk_readVarInt n p ≠ .oob ∧
+    ∀ v r e, MosnVerif.Gen.C08HpackRead.hpk_readVarInt n p = .ok (v, r, e) →
+      (e = Err.nil → len r < len p) ∧ (e ≠ Err.nil → r = p) := by
+  have hs := MosnVerif.Lemmas.HpackRead.readVarInt_spec n p h1 h8
+  refine ⟨Safe.ne_oob hs, fun v r e h => ?_⟩
+  have hv : MosnVerif.Lemmas.HpackRead.VarIntSpec p (v, r, e) := Safe.value hs h
+  exact hv
+
+-- non-vacuity: 7-bit prefix: 10 fits the prefix; 127 + 0x9a 0x0a = 1337 (RFC 7541 C.1.2 with a 7-bit prefix); truncated: need more
+example : MosnVerif.Gen.C08HpackRead.hpk_readVarInt 7 [10, 99] = .ok (10, [99], Err.nil) := by decide +kernel
+example : MosnVerif.Gen.C08HpackRead.hpk_readVarInt 5 [31, 154, 10, 7] = .ok (1337, [7], Err.nil) := by decide +kernel
+example : MosnVerif.Gen.C08HpackRead.hpk_readVarInt 5 [31, 154] = .ok (0, [31, 154], Err.again) := by decide +kernel
 end c08p10
 
 end MosnVerif.Props.C08
